@@ -42,6 +42,8 @@ func gen(args []string) {
 		genLex(w, tier, r)
 	case "POS":
 		genPos(w, tier, r)
+	case "SPLIT":
+		genSplit(w, tier, r)
 	default:
 		fmt.Fprintln(os.Stderr, "unknown channel", ch)
 		os.Exit(2)
